@@ -4,7 +4,8 @@
 
    kinds "pll.history" (general histories), "pll.large" (large-but-legal inputs:
    offsets of hours, gaps of 1 ns and of days, slews at the clamp; judged like
-   pll.history) and "pll.longgap" (histories whose last gap exceeds the int64
+   pll.history), "pll.stiffen" (hundreds of updates of the stiffening branch at
+   constant spacing; judged like pll.history) and "pll.longgap" (histories whose last gap exceeds the int64
    wrap of 9223372036 s: the known finding; the oracle is the same strict one --
    every duration > 0 -- the suppression is done by KNOWN_FINDINGS.txt):
      args  = six integers per update, flat:
@@ -101,7 +102,7 @@ Definition epochsrc_ok (o : list value) : bool :=
   values_eqb (firstn 9 o) (firstn 9 epochsrc_expected) && (length o =? 10)%nat.
 
 Definition glue_C19 (k : string) (a o : list value) : option verdict :=
-  if is k "pll.history" || is k "pll.large" || is k "pll.longgap" then
+  if is k "pll.history" || is k "pll.large" || is k "pll.longgap" || is k "pll.stiffen" then
     match parse_updates (S (length a)) a with
     | None => None
     | Some uds =>
